@@ -199,7 +199,7 @@ def gen_history(seed, tier, prop, kinds_allowed):
         wshape = [1]
     else:
         wshape = _weighted(r, [([r.randint(1, 4)], 6), ([r.randint(1, 3), r.randint(1, 3)], 2),
-                               ([2, r.randint(1, 2), 2], 1 if thorough else 0.3)])
+                               ([2, r.randint(1, 2), 2], 1 if thorough else 0.3), ([16], 0.4), ([4, 4], 0.4)])     # incl. a 16-byte cipher state
     scn['wshape'] = wshape
     # classes / data values
     scn['classes'] = None
@@ -556,9 +556,14 @@ def _same(scn, adapter, A, B, force_bitwise=False):
 
 def _bad_args(scn, bk, tr, da):
     kind = scn['kind']
+    v = int(tr.shape[0] + da.shape[0] + (int(tr.flat[0]) if tr.size else 0)) % 3        # deterministic variant of the refusal
     if bk == 'rows':
-        return tr, da[:-1]
+        return (tr, da[:-1]) if v else (tr[:-1], da)
     if bk == 'length':
+        if v == 0 and tr.shape[1] >= 2:
+            return np.ascontiguousarray(tr[:, :-1]), da                                   # shorter
+        if v == 1:
+            return np.ascontiguousarray(np.concatenate([tr, tr, tr[:, :1]], 1)), da       # much longer
         return np.ascontiguousarray(np.concatenate([tr, tr[:, :1]], 1)), da
     if bk == 'words':
         flat = da.reshape(da.shape[0], -1)
@@ -574,7 +579,7 @@ def _bad_args(scn, bk, tr, da):
     if bk == 'type_data':
         return tr, None
     if bk == 'float_data':
-        return tr, da.astype('float32')
+        return tr, da.astype(['float32', 'float64', 'float16'][v])
     if bk == 'first_range':
         if kind == 'dpa':
             return tr, (da + 2).astype('uint8')
